@@ -179,6 +179,13 @@ theorem born_total {K : Type} [AddCommMonoid K] (D n : Nat) (ρ : Tens K) :
 theorem born_sum_order {K : Type} [AddCommMonoid K] (D : Nat) {l1 l2 : List Nat} (h : l1.Perm l2) (ρ : Tens K)
     (idx : Idx) : traceOver D l1 ρ idx = traceOver D l2 ρ idx := traceOver_perm D h ρ idx
 
+/-- **fock_dist_sums_to_trace.**  As a flat list: the entries of the vector `measure_fock` builds (before the division) sum to
+`tr ρ` — for every register size, cutoff, density tensor and list of distinct measured modes in any order -/
+theorem fock_dist_sums_to_trace {K : Type} [AddCommMonoid K] (D n : Nat) (measure : List Nat) (hnd : measure.Nodup)
+    (hlt : ∀ m ∈ measure, m < n) (ρ : Tens K) :
+    (fockDist D n measure ρ).sum = traceOver D (List.range n) ρ (fun _ => 0) := by
+  rw [fockDist_sum D n measure.length measure rfl hnd hlt ρ, bornProb_nil]
+
 /-- the probabilities handed to `choice` sum to one -/
 theorem fock_probs_normalised {K : Type} [Field K] (D n : Nat) (measure : List Nat) (ρ : Tens K)
     (h : (fockDist D n measure ρ).sum ≠ 0) : (fockProbs D n measure ρ).sum = 1 := by
